@@ -121,6 +121,7 @@ ArgOK(c, a) ==
           /\ a.alt \in Alts
           /\ a.ak \in {"value", "copy", "move", "ilist", "multi"}    \* ilist: (initializer_list, arg) ; multi: two arguments
           /\ a.alt \notin TrackedAlts => a.ak = "value"
+          /\ a.val = UNORD => a.alt \notin IntAlts(TrackedAlts)            \* an int is totally ordered: no unordered value
           /\ a.ak \in {"ilist", "multi"} => c # "ConvAssign" /\ a.form \in {"index", "type"}
           /\ c = "CtorValue" => a.form \in {"conv", "index", "type"}
           /\ c = "Emplace" => a.form \in {"index", "type"}
@@ -167,7 +168,6 @@ Expect(c, a) ==
    values are only partially ordered (a double holding NaN): the payload fixtures of the harness treat the value UNORD as
    unordered with everything (itself included): ==, <, >, <=, >= are false, != is true.  The scripts never give UNORD to
    the int alternative. *)
-UNORD == 7777
 ElemRel(rel, a, b) ==
     IF a = UNORD \/ b = UNORD THEN rel = "ne"
     ELSE CASE rel = "eq" -> a = b [] rel = "ne" -> a # b [] rel = "lt" -> a < b
@@ -264,7 +264,7 @@ ThrowOK(c, a, post) ==
 (* [variant.assign]: T&& / const variant& / variant&& use emplace directly iff  *)
 (* is_nothrow_constructible<Tj, Arg> or !is_nothrow_move_constructible<Tj>,     *)
 (* otherwise a temporary is built first (strong guarantee).                     *)
-NothrowCtorFrom(alt, ak) == alt \notin TrackedAlts \/ (ak = "move" /\ NoThrowMove(alt))
+NothrowCtorFrom(alt, ak) == (alt \notin TrackedAlts /\ alt \notin UntrackedThrowAlts) \/ (alt \in TrackedAlts /\ ak = "move" /\ NoThrowMove(alt))
 TempFirst(alt, ak)       == ~(NothrowCtorFrom(alt, ak) \/ ~NoThrowMove(alt))
 Same(x, y)               == NoId(x) = NoId(y)
 VlOrOld(j, post)         == IsVl(post[j]) \/ Same(post[j], v[j])
